@@ -67,7 +67,7 @@ def gen_cases(tier, seed):
         cfg["threads"] = ["1"]
         nroots = rng.choice([1, 2, 3])
         world, roots = gen.gen_world(rng, cfg, nroots=nroots, hostile=True, max_files=rng.choice([6, 12, 20]),
-                                     families=rng.randint(1, 4), min_len=1)
+                                     families=rng.randint(1, 4), min_len=1, hostile_roots=rng.random() < 0.5)
         kind = rng.choice(["roundtrip", "roundtrip", "chunked", "writer"])
         c = {"i": i, "kind": kind, "cfg": cfg, "world": world.to_json(), "roots": roots,
              "gflags": (["--isolate"] if nroots >= 2 and rng.random() < 0.4 else []) + (["-S"] if rng.random() < 0.2 else []),
